@@ -1306,3 +1306,61 @@ impl AvailProbe {
         crate::availability::Availability::offset(idx)
     }
 }
+
+// ------------------------------------------------------------------------------------------------
+// join_all (the future the server awaits the workers' stop replies with): scripted probe
+// ------------------------------------------------------------------------------------------------
+struct ScriptedFut {
+    idx: usize,
+    left: usize,
+    polls: Arc<Mutex<Vec<usize>>>,
+    done: bool,
+}
+
+impl Future for ScriptedFut {
+    type Output = usize;
+    fn poll(mut self: Pin<&mut Self>, _: &mut Context<'_>) -> Poll<usize> {
+        let i = self.idx;
+        self.polls.lock().unwrap()[i] += 1;
+        if self.done {
+            panic!("future {i} polled after completion");
+        }
+        if self.left == 0 {
+            self.done = true;
+            Poll::Ready(i + 1)
+        } else {
+            self.left -= 1;
+            Poll::Pending
+        }
+    }
+}
+
+/// Runs the crate's `join_all` over futures that are Pending `k[i]` times and then yield `i + 1`.
+/// Returns (rounds until Ready (0 = never within the bound), polls per future, result).
+pub fn join_all_probe(k: &[usize]) -> (usize, Vec<usize>, Vec<usize>) {
+    let polls = Arc::new(Mutex::new(vec![0usize; k.len()]));
+    let futs: Vec<ScriptedFut> = k
+        .iter()
+        .enumerate()
+        .map(|(idx, left)| ScriptedFut {
+            idx,
+            left: *left,
+            polls: polls.clone(),
+            done: false,
+        })
+        .collect();
+    let mut j = crate::join_all::join_all(futs);
+    let waker = Waker::from(Arc::new(FlagWaker(AtomicBool::new(false))));
+    let mut cx = Context::from_waker(&waker);
+    let mut rounds = 0;
+    let mut result = vec![];
+    for r in 1..=(k.iter().max().copied().unwrap_or(0) + 3) {
+        if let Poll::Ready(v) = Pin::new(&mut j).poll(&mut cx) {
+            rounds = r;
+            result = v;
+            break;
+        }
+    }
+    let p = polls.lock().unwrap().clone();
+    (rounds, p, result)
+}
